@@ -34,8 +34,9 @@ Definition check_block_io (img : mem) (b : block) (S : iospec) (vs inb : list N)
       | Halt Looping s wl =>
           (s.(ip) =? xa) && out_is s.(outp) (out ++ marker) &&
           bools_eqb s.(inp) (skipn (N.to_nat used) bits) && vals_in_range b.(b_vars) vs' &&
-          forallb (word_ok_io b clob s.(m) me) wl &&
-          forallb (word_ok_io b clob s.(m) me) (1 :: vars_words b.(b_vars))
+          (* word 0 (target of every `;label` op's null flip) is on the log once per op: it is checked once, below *)
+          forallb (fun a => match a with 0 => true | _ => word_ok_io b clob s.(m) me a end) wl &&
+          forallb (word_ok_io b clob s.(m) me) (0 :: 1 :: vars_words b.(b_vars))
       | _ => false
       end
     end
@@ -60,7 +61,7 @@ Definition observe_block_io (img : mem) (b : block) (vs inb vs' : list N) (clob 
       (match c with Looping => 0 | EOFc => 1 | NullIP => 2 | MemErr _ => 5 | OutOfFuel => 6 end,
        s.(ops), s.(ip), fst (out_bytes s.(outp)), len (map N.b2n (snd (out_bytes s.(outp)))), len (map N.b2n s.(inp)),
        map (fun a => (a, mget0 s.(m) a, mget0 me a))
-           (filter (fun a => negb (word_ok_io b clob s.(m) me a)) (wl ++ 1 :: vars_words b.(b_vars))))
+           (filter (fun a => negb (word_ok_io b clob s.(m) me a)) (nodup N.eq_dec (wl ++ 1 :: vars_words b.(b_vars)))))
   | Cont s wl => (6, s.(ops), s.(ip), [], 0, 0, [])
   end.
 
